@@ -87,6 +87,9 @@ Definition rfc_step (s b : N) : N :=
   | _ => 1
   end.
 
+(* the machine run over a list of octets *)
+Definition dfa_run (step : N -> N -> N) (s : N) (bs : list N) : N := fold_left step bs s.
+
 (* Definition D92 / RFC 3629 section 3: the encoding of one Unicode scalar value *)
 Definition scalar_value (cp : N) : bool := (cp <=? 0x10FFFF) && negb (inr 0xD800 0xDFFF cp).
 Definition utf8_encode (cp : N) : list N :=
@@ -98,6 +101,10 @@ Definition utf8_encode (cp : N) : list N :=
 (* ------------------------------------------------------------------------------------------------ *)
 (* The observable result of one validate() call: (valid?, endsOnCodePoint?, currentIndex, totalIndex) *)
 Definition vresult := (bool * bool * N * N)%type.
+Definition r_valid (r : vresult) : bool := fst (fst (fst r)).
+Definition r_ends (r : vresult) : bool := snd (fst (fst r)).
+Definition r_cur (r : vresult) : N := snd (fst r).
+Definition r_tot (r : vresult) : N := snd r.
 
 (* ---- utf8validator.py: class Utf8Validator (pure Python) ---- *)
 Record pyv := { py_state : N; py_index : N }.
@@ -118,8 +125,10 @@ Definition py_validate (tbl : list N) (v : pyv) (ba : list N) : pyv * vresult :=
   match py_loop tbl (py_state v) 0 ba with
   | (s, Some i) =>                 (* self._state = state; self._index += i; return False, False, i, self._index *)
       ({| py_state := s; py_index := py_index v + i |}, (false, false, i, py_index v + i))
-  | (s, None) =>                   (* self._state = state; self._index += l; return True, state == ACCEPT, l, self._index *)
-      ({| py_state := s; py_index := py_index v + nlen ba |}, (true, s =? 0, nlen ba, py_index v + nlen ba))
+  | (s, None) =>                   (* self._state = state; self._index += l;
+                                      return state != UTF8_REJECT, state == UTF8_ACCEPT, l, self._index
+                                      (state can only be REJECT here when the chunk is empty and an earlier call rejected) *)
+      ({| py_state := s; py_index := py_index v + nlen ba |}, (negb (s =? 1), s =? 0, nlen ba, py_index v + nlen ba))
   end.
 
 (* ---- _utf8validator.c ---- *)
@@ -139,7 +148,8 @@ Definition c_new (max_impl : N) : cv := {| c_state := 0; c_cur := 0; c_tot := 0;
 
 (* while (i < length && state != 1) { state = STEP; if (state == 1) { <bail out at i> } i++; }
    shared by _nvx_utf8vld_validate_table (STEP = table lookup) and _nvx_utf8vld_validate_unrolled
-   (STEP = DFA_TRANSITION).  NOTE the loop is skipped when entered in the reject state. *)
+   (STEP = DFA_TRANSITION).  The loop condition still tests state != 1, as in the source; since the entry check of
+   c_validate_with it can no longer be false on entry. *)
 Fixpoint c_loop (step : N -> N -> N) (state i : N) (data : list N) : N * option N :=
   match data with
   | [] => (state, None)
@@ -150,6 +160,11 @@ Fixpoint c_loop (step : N -> N -> N) (state i : N) (data : list N) : N * option 
 
 (* one of the two loop functions; returns the C return value (-1 / 0 / 1) *)
 Definition c_validate_with (step : N -> N -> N) (v : cv) (data : list N) : cv * Z :=
+  if c_state v =? 1 then
+    (* if (state == 1) { vld->current_index = 0; return -1; }   already rejected by an earlier chunk: state and
+       total_index are left as they are *)
+    ({| c_state := c_state v; c_cur := 0; c_tot := c_tot v; c_impl := c_impl v |}, (-1)%Z)
+  else
   match c_loop step (c_state v) 0 data with
   | (s, Some i) =>      (* vld->state = state; current_index = i; total_index += i; return -1 *)
       ({| c_state := s; c_cur := i; c_tot := c_tot v + i; c_impl := c_impl v |}, (-1)%Z)
@@ -203,11 +218,11 @@ Fixpoint ref_feed (prev : list N) (chunks : list (list N)) : list vresult :=
   | c :: cs => ref_result prev c :: ref_feed (prev ++ c) cs
   end.
 
-(* a caller that stops at the first call reporting invalid sees exactly this part of the results *)
-Fixpoint until_invalid (rs : list vresult) : list vresult :=
-  match rs with
-  | [] => []
-  | r :: rest => if fst (fst (fst r)) then r :: until_invalid rest else [r]
-  end.
 (* verdict, boundary flag and total index (the chunk-relative current index dropped) *)
 Definition res3 (r : vresult) : bool * bool * N := let '(a, b, _, d) := r in (a, b, d).
+
+(* FULL-STRENGTH chunking statement for a validator [validate] started at [v0]: after any split into chunks the
+   last call reports the verdict, boundary flag and total index that one call on the concatenation reports *)
+Definition chunking_independent {V} (validate : V -> list N -> V * vresult) (v0 : V) : Prop :=
+  forall chunks d, chunks <> [] -> Forall bytes_ok chunks ->
+    res3 (last (snd (feed validate v0 chunks)) d) = res3 (snd (validate v0 (concat chunks))).
